@@ -222,6 +222,8 @@ func Worker(raw json.RawMessage) any {
 		judge = JudgeBlocking
 	case "index":
 		judge = JudgeIndexFiles
+	case "durable":
+		judge = JudgeDurable
 	}
 	return Explore(t, judge)
 }
